@@ -657,6 +657,56 @@ def storage_fns(const_visit=True):
     return [resize, upd('resize_upd_i64', 'long'), upd('resize_upd_i32', 'int'), visit]
 
 
+DROP_H = 'specs/C08/drop.h'
+
+
+def byfeature_order_hook(P, n):
+    """the wrappers hoist byfeature(feature) (it throws for an invalid index) in front of the statement that uses it: this is
+    the C++17 order only where the call is the object / callee part of a postfix expression or stands alone (initialiser).
+    As one of SEVERAL arguments of a call its order against the other arguments is unspecified: refused."""
+    from cxx2c import Unsupported
+    if n.get('kind') not in ('CallExpr', 'CXXMemberCallExpr', 'CXXOperatorCallExpr', 'CXXConstructExpr'):
+        return None
+    args = n.get('inner', [])[1:] if n.get('kind') != 'CXXConstructExpr' else n.get('inner', [])
+    if len(args) < 2:
+        return None
+    for a in args:
+        for x in astload.walk(a):
+            if x.get('kind') == 'MemberExpr' and x.get('name') == 'byfeature':
+                raise Unsupported('byfeature(..) inside one of several call arguments: evaluation order unspecified')
+    return None
+
+
+def wrapper_fns(name):
+    """dataset_t::drop / shuffle / shuffled / undrop / unshuffle: thin wrappers around byfeature + one generator call (or a
+    loop over the generators); every read of m_feature_mapping by the wrapper goes through the bounds-checked, counting
+    accessor nv_fm_read"""
+    tu = 'src/dataset.cpp'
+    gv = r'std::vector<std::unique_ptr<nano::generator_t'
+    types = TYPES + [(r'^nano::datasource_t$', 'struct nv_datasource'),
+                     (r'__normal_iterator<\s*(const )?std::unique_ptr<nano::generator_t|^' + gv + r'.*>::(const_)?iterator$', 'int64_t'),
+                     (r'^nano::rgenerator_t$|^std::unique_ptr<nano::generator_t', 'struct nv_rgen'),
+                     (r'^nano::rgenerators_t$|^' + gv, 'struct nv_gens'),
+                     (r'^nano::indices_t$|tensor_t<nano::tensor_vector_storage_t, long, 1>$', 'struct nv_idxv')]
+    calls = ELEM + [(r'^operator\(\)\|typename tbase::tconstref \(const nano::tensor_size_t, const int\) const\|.*tensor_vector_storage_t, long, 2>', '(*nv_fm_read({&0}, {1}, {2}))'),
+                    (r'^operator->\|std::unique_ptr<nano::generator_t>::pointer \(\) const', '{&0}'),
+                    (r'^operator!=\|.*__normal_iterator', '({0} != {1})'), (r'^operator\+\+\|.*__normal_iterator', '(++{0})'),
+                    (r'^operator\*\|.*__normal_iterator', '(*nv_gens_at(&self->m_generators, {0}))'),
+                    (r'^ctor\|nano::tensor_t<nano::tensor_carray_storage_t, long, 1>\|', '{0}')]
+    members = SIZE1 + [(r'^byfeature\|nano::dataset_t', '(*dataset_byfeature({self}, {0}))!^'),
+                       (r'^begin\|' + gv, 'nv_gens_begin'), (r'^end\|' + gv, 'nv_gens_end'),
+                       (r'^drop\|nano::generator_t \*', 'nv_generator_drop'), (r'^shuffle\|nano::generator_t \*', 'nv_generator_shuffle'),
+                       (r'^shuffled\|nano::generator_t \*', 'nv_generator_shuffled'),
+                       (r'^undrop\|nano::generator_t \*', 'nv_generator_undrop({self}, &self->m_generators)'), (r'^unshuffle\|nano::generator_t \*', 'nv_generator_unshuffle({self}, &self->m_generators)')]
+    sel = (lambda d: len(astload.param_types(d)) == 2) if name == 'shuffled' else None
+    w = Fn('dataset_' + name, tu, name, flt='nano::dataset_t::' + name, select=sel, self_struct='struct nv_dataset', types=types, uf_float=False,
+           hooks=[byfeature_order_hook, size_rank2_hook(tu)], calls=calls, members=members)
+    if name in ('undrop', 'unshuffle'):
+        return [w]
+    _, chk_f, byf, feats, _ = dataset_fns()
+    return [w, byf, chk_f, feats]
+
+
 UPD_H = 'specs/C08/update.h'
 import os as _os
 CBMC_TIMEOUT_DEFAULT = int(_os.environ.get('NV_CBMC_TIMEOUT', '600'))
@@ -752,6 +802,10 @@ def build(tier):
         targets.append(Target('gen_select_' + kind, gen_fns(['select_' + kind, 'should_drop']), GEN_H))
     for kind in ('sclass', 'mclass', 'scalar', 'struct'):
         targets.append(Target('dataset_select_' + kind, select_fns(kind), SEL_H, replace=['dataset_byfeature', 'dataset_check_samples']))
+    for nm in ('drop', 'shuffle', 'shuffled'):
+        targets.append(Target('dataset_' + nm, wrapper_fns(nm), DROP_H, replace=['dataset_byfeature']))
+    for nm in ('undrop', 'unshuffle'):
+        targets.append(Target('dataset_' + nm, wrapper_fns(nm), DROP_H))
     return {
         'targets': targets, 'vcs': [],
         'decided': [
